@@ -548,6 +548,86 @@ def printCpt (g : Grammar) (c : Cpt) : Option Str :=
         let os := strip os
         some (if os.isEmpty then net else net ++ [';', ' '] ++ os)
 
+/-! ### the printer with its repairs (round 3)
+
+  `_arg_format` / `_netmake1` as they are after the proposed fixes for the findings C06-e, C06-a, C06-b;
+  which of them the checked-out source contains is read from the source by the translator
+  (`Gen.Grammar.printerFix`).  With all three flags off this is the printer above
+  (`C06Fixed.printCptC_current`). -/
+
+structure PrinterCfg where
+  fixE : Bool   -- `_arg_format` braces an empty value, a value that starts with `{` or `"`, a value with `=`
+  fixA : Bool   -- `_arg_format` braces a value spelt like a keyword of the component type
+  fixB : Bool   -- `_netmake1` omits an argument equal to the name only if the rule's default is the name
+  deriving Repr, DecidableEq
+
+/-- the repairs found in the checked-out source -/
+def theCfg : PrinterCfg := ⟨Gen.Grammar.printerFix.1, Gen.Grammar.printerFix.2.1, Gen.Grammar.printerFix.2.2⟩
+
+def argFormatC (cfg : PrinterCfg) (ds : List Char) (kws : List Str) (v : Str) : Str :=
+  if cfg.fixE && (v.isEmpty || v.head? == some '{' || v.head? == some '"' || v.contains '=') then '{' :: (v ++ ['}'])
+  else if !cfg.fixE && v.head? == some '{' then v
+  else if cfg.fixA && kws.contains (lower v) then '{' :: (v ++ ['}'])
+  else if v.any ds.contains then '{' :: (v ++ ['}'])
+  else v
+
+def fmtArgsC (cfg : PrinterCfg) (ds : List Char) (kws : List Str) : List (Option Str) → List Str
+  | [] => []
+  | [none] => []
+  | none :: rest => argFormatC cfg ds kws ['0'] :: fmtArgsC cfg ds kws rest
+  | some v :: rest => argFormatC cfg ds kws v :: fmtArgsC cfg ds kws rest
+
+/-- `Parser.rule(relname, keyword)` (fix C06-b): the rule a line with this name and keyword selects -/
+def ruleFor (g : Grammar) (relname kw : Str) : Option Rule :=
+  match matchType g relname with
+  | none => none
+  | some ty =>
+    let rules := rulesOf g ty
+    let hit := if kw.isEmpty then none else
+      rules.find? (fun r => match r.pos with
+        | some p => (r.params[p]?.map (fun q => lower q.name)) == some (lower kw)
+        | none => false)
+    match hit with
+    | some r => some r
+    | none => rules.head?
+
+/-- `Parser.default_is_name(relname, keyword)` (fix C06-b) -/
+def defaultIsName (g : Grammar) (relname kw : Str) : Bool :=
+  match ruleFor g relname kw with
+  | none => false
+  | some r =>
+    match r.params.find? (·.kind.isArg) with
+    | some p => p.default == some ['n','a','m','e']
+    | none => true
+
+def netTokensC (cfg : PrinterCfg) (g : Grammar) (c : Cpt) : List Str :=
+  let parts := splitOn '.' c.name
+  let relname := parts.getLastD []
+  let nsp := joinWith ['.'] parts.dropLast
+  let fa := fmtArgsC cfg g.delimiters (typeKeywords g c.ctype) c.args
+  let fa := if fa.length == 1 && fa.head? == some relname && (!cfg.fixB || defaultIsName g relname c.kw) then [] else fa
+  let relname :=
+    match relname with
+    | c0 :: rest =>
+      if (c0 == 'A' || c0 == 'O' || c0 == 'W' || c0 == 'P') && startsWith rest ['a','n','o','n'] then [c0] else relname
+    | [] => relname
+  let name := if nsp.isEmpty then relname else nsp ++ ['.'] ++ relname
+  [name] ++ (if c.kwpos == some 0 && !c.kw.isEmpty then [c.kw] else [])
+    ++ nodesWithKw c.kwpos c.kw c.nodes 0 ++ fa
+
+def printCptC (cfg : PrinterCfg) (g : Grammar) (c : Cpt) : Option Str :=
+  if c.ctype == ['X','X'] then some c.string
+  else
+    match optsParse c.opts with
+    | .error _ => none
+    | .ok o =>
+      match optsFormat o with
+      | none => none
+      | some os =>
+        let net := joinWith [' '] (netTokensC cfg g c)
+        let os := strip os
+        some (if os.isEmpty then net else net ++ [';', ' '] ++ os)
+
 /-! ### netlists (netfile._add / _parse, netlist._cpt_add) -/
 
 structure NState where
@@ -589,6 +669,10 @@ def parseNetlist (g : Grammar) (text : Str) : Except Err NState :=
 /-- `netlist()`: one printed component per line -/
 def printNetlist (g : Grammar) (s : NState) : Option Str :=
   (s.elts.mapM (printCpt g)).map (joinWith ['\n'])
+
+/-- `netlist()` of the checked-out code (with whatever repairs it contains) -/
+def printNetlistC (cfg : PrinterCfg) (g : Grammar) (s : NState) : Option Str :=
+  (s.elts.mapM (printCptC cfg g)).map (joinWith ['\n'])
 
 /-! ### value_parser (valueparser.py) -/
 
